@@ -14,6 +14,9 @@ next line starting with `@`):
   @unit NAME
   @file ALIAS PATH                 source file below /repo
   @include PATH                    verus text below /verif (shim / spec / lemmas)
+  @use PATH [as MOD]               import another unit (types / spec text / lemmas verbatim, functions as external_body + contract).
+                                   `as MOD`: its not-yet-seen entries go into `pub mod MOD` (no glob re-export) instead of
+                                   `mod verif_imported` -- for two units that define items of the same name (restated traits)
   @strip PREFIX                    R11: drop this path prefix in extracted code (e.g. `apint::`)
   @raw                             block: verus text emitted here (spec glue); counted as spec text
   @type ALIAS::NAME [keep-derives] extract a struct / enum definition
@@ -90,6 +93,7 @@ class Unit:
         self.strips = []
         self.seen = set()
         self.imported_ids = set()   # entries pulled in by @use: emitted in `mod verif_imported`, not re-verified
+        self.import_mod = {}        # id(entry) -> module name for entries pulled in by `@use PATH as MOD`
 
 
 def parse_unit(path):
@@ -134,6 +138,10 @@ def parse_unit(path):
                 u.seen.add(("include", arg))
                 u.entries.append(("include", arg))
         elif d == "@use":
+            use_mod = None
+            m_use = re.match(r"(\S+)\s+as\s+(\w+)$", arg)
+            if m_use:
+                arg, use_mod = m_use.group(1), m_use.group(2)
             sub = parse_unit(os.path.join(VERIF, arg))
             for a, pth in sub.files.items():
                 if a in u.files and u.files[a] != pth:
@@ -148,6 +156,8 @@ def parse_unit(path):
                     continue
                 u.seen.add(key)
                 u.imported_ids.add(id(e))
+                if use_mod or id(e) in sub.import_mod:
+                    u.import_mod[id(e)] = use_mod or sub.import_mod[id(e)]
                 if e[0] == "fn":
                     e[1].imported = sub.name
                     e[1].hints = []
@@ -569,7 +579,8 @@ def build_fn(u, fs, log, probe=False):
     if fs.imported:
         # imported declarations live in `mod verif_imported`: make them visible to the importing unit
         tgt = fs.into or (rl.norm(cont.toks[cont.start:cont.body[0]]) if (cont is not None and cont.kind == "impl") else "")
-        if " for " not in rl.norm(tgt) and not re.match(r"\s*pub\b", sig_text):
+        # (no `pub` inside a trait: a default method extracted `@into pub trait X` -- first needed when unit domain_map was imported)
+        if " for " not in rl.norm(tgt) and not re.match(r"\s*(pub\s+)?trait\b", rl.norm(tgt)) and not re.match(r"\s*pub\b", sig_text):
             sig_text = "pub " + sig_text
         fn_text = "%s    #[verifier::external_body] // proved in unit `%s`\n    %s%s    { unimplemented!() }\n" % (attrs, fs.imported, sig_text, spec)
         log.append({"rule": "import", "fn": fs.path, "unit": fs.imported})
@@ -706,12 +717,25 @@ def assemble(unit_path, probe=False, no_hints=False, extra_requires=None, extra_
     parts = [HEADER]
     fns = []
     includes = []
-    imported = [e for e in u.entries if id(e) in u.imported_ids]
+    MOD_HEAD = "pub mod %s {\nuse vstd::prelude::*;\nuse vstd::std_specs::ops::*;\nuse vstd::std_specs::cmp::*;\nuse vstd::std_specs::convert::*;\nuse super::*;\n"
+    imported = [e for e in u.entries if id(e) in u.imported_ids and id(e) not in u.import_mod]
     own = [e for e in u.entries if id(e) not in u.imported_ids]
+    # `@use PATH as MOD`: one module per MOD, after `mod verif_imported`, not glob re-exported (markers: ("modopen", MOD) / ("modclose", MOD))
+    named = []
+    for mod_ in dict.fromkeys(u.import_mod.values()):
+        named.append(("modopen", mod_))
+        named += [e for e in u.entries if u.import_mod.get(id(e)) == mod_]
+        named.append(("modclose", mod_))
     if imported:
         # material proved in other units: its own module, excluded from verification by --verify-root
-        parts.append("pub mod verif_imported {\nuse vstd::prelude::*;\nuse vstd::std_specs::ops::*;\nuse vstd::std_specs::cmp::*;\nuse vstd::std_specs::convert::*;\nuse super::*;\n")
-    for e in imported + [None] + own:
+        parts.append(MOD_HEAD % "verif_imported")
+    for e in imported + [None] + named + own:
+        if e is not None and e[0] == "modopen":
+            parts.append(MOD_HEAD % e[1])
+            continue
+        if e is not None and e[0] == "modclose":
+            parts.append("} // mod %s\n" % e[1])
+            continue
         if e is None:
             if imported:
                 parts.append("} // mod verif_imported\npub use verif_imported::*;\n")
